@@ -909,3 +909,29 @@ def r10(rr, repo):
             it = U(lc.generators[0].iter)
             fed = [a for a in q.calls_in(setup) if U(a.func) == f'{it}.append' and a.args and 'options' in U(a.args[0])]
             rr.ob("the merged entries are the options each source carries itself", bool(fed), mod, lc, witness=U(fed[0])[:80] if fed else f'nothing appends source options to {it}', key='per-source-options-fed')
+
+
+@rule('C17.R11', "every transformed image goes back under its own topic: Util.process writes the results of the per-topic chains back keyed by the topic each result carries - only topics that have an image get a "
+                 "chain, so pairing the results with the incoming topics by position shifts them as soon as a data-only topic comes first (it is overwritten with another topic's image, the last image leaves "
+                 "untransformed)")
+def r11(rr, repo):
+    mod, proc = repo.find(f'{UT}::Util.process')
+    res = [n for n in walk_scope(proc) if isinstance(n, ast.Assign) and isinstance(n.value, ast.Call) and 'execute_xforms' in U(n.value) and ('.map(' in U(n.value) or 'map(' in U(n.value))]
+    rr.floor('parallel executions of the per-topic chains', len(res), 1, mod, proc)
+    for r in res:
+        name = U(r.targets[0])
+        loops = [n for n in walk_scope(proc) if isinstance(n, ast.For) and any(isinstance(x, ast.Name) and x.id == name for x in ast.walk(n.iter)) and n.lineno > r.lineno]
+        if len(loops) != 1:
+            rr.unresolved('how the results of the chains are written back was not recognised', mod, r, witness=f'{len(loops)} loops over {name}', key='writeback-by-own-topic')
+            continue
+        lp = loops[0]
+        direct = isinstance(lp.iter, ast.Name) and lp.iter.id == name and isinstance(lp.target, ast.Name)
+        stores = [a for a in lp.body if isinstance(a, ast.Assign) and isinstance(a.targets[0], ast.Subscript) and U(a.targets[0].value) == 'frames']
+        if direct and len(stores) == 1:
+            el = lp.target.id
+            ok = U(stores[0].targets[0].slice) == f'{el}.topic' and U(stores[0].value) == f'{el}.frame'
+            rr.ob('a result is stored under the topic it carries itself', ok, mod, stores[0], witness=U(stores[0])[:80], key='writeback-by-own-topic')
+        elif stores and any(isinstance(c, ast.Call) and U(c.func) in ('zip', 'enumerate') for c in ast.walk(lp.iter)):
+            rr.ob('a result is stored under the topic it carries itself', False, mod, lp, witness=f'for {U(lp.target)} in {U(lp.iter)}: results are paired with topics by position', key='writeback-by-own-topic')
+        else:
+            rr.unresolved('how the results of the chains are written back was not recognised', mod, lp, witness=U(lp.iter)[:80], key='writeback-by-own-topic')
